@@ -43,15 +43,15 @@ class _FakeDatetimeClass(_real_datetime.datetime):
     def now(cls, tz=None):
         n = ENV.now
         if tz is not None:  # the virtual local zone is UTC+2
-            return (_real_datetime.datetime(n.year, n.month, n.day, n.hour, n.minute, n.second,
+            return (_real_datetime.datetime(n.year, n.month, n.day, n.hour, n.minute, n.second, n.microsecond,
                                             tzinfo=_real_datetime.timezone.utc)
                     - _real_datetime.timedelta(hours=2)).astimezone(tz)
-        return _real_datetime.datetime(n.year, n.month, n.day, n.hour, n.minute, n.second)
+        return _real_datetime.datetime(n.year, n.month, n.day, n.hour, n.minute, n.second, n.microsecond)
 
     @classmethod
     def utcnow(cls):
         n = ENV.now
-        return _real_datetime.datetime(n.year, n.month, n.day, n.hour, n.minute, n.second) \
+        return _real_datetime.datetime(n.year, n.month, n.day, n.hour, n.minute, n.second, n.microsecond) \
             - _real_datetime.timedelta(hours=2)
 
     @classmethod
@@ -89,7 +89,7 @@ class _VirtualOsClock(object):
         def localtime(secs=None):
             st = real_gmtime((epoch if secs is None else secs) + 7200)
             return _t.struct_time(tuple(st[:8]) + (0,))
-        _t.time = lambda: float(epoch)
+        _t.time = lambda: float(epoch) + n.microsecond / 1e6
         _t.gmtime, _t.localtime = gmtime, localtime
         _t.timezone, _t.altzone, _t.daylight, _t.tzname = -7200, -10800, 1, ('VST', 'VDT')
         return self
@@ -288,7 +288,8 @@ class Result(object):
 
 
 def _prepare(spec, mounts):
-    ENV.now = _real_datetime.datetime.strptime(spec['now'], EPOCH_FMT)
+    # (the instant may carry a fraction of a second, as a real clock does: '2020-06-15T12:00:00.500000')
+    ENV.now = _real_datetime.datetime.strptime(spec['now'], EPOCH_FMT + ('.%f' if '.' in spec['now'] else ''))
     ENV.rand = list(spec['rand']) or [7]
     ENV.rand_calls = 0
     ENV.stdin = list(spec['stdin'])
